@@ -91,6 +91,8 @@ type collInput struct {
 	T0       int64        `json:"t0"`
 	Ops      []collOp     `json:"ops"`
 	Flush    bool         `json:"flush,omitempty"` // finish with late ticks until every buffer is empty
+	ShrinkRound int       `json:"shrink_round,omitempty"` // bookkeeping of collShrink
+	ShrinkMax   int       `json:"shrink_max,omitempty"`   // cap on shrink rounds (0 = 3)
 }
 
 // ---------------------------------------------------------------- doubles
@@ -815,24 +817,63 @@ func collCoq(r *collResult) string {
 		cq.N(uint64(r.NTr)), cq.N(uint64(flush)), cq.List(items))
 }
 
-// collShrink: drop one op, drop the flush, drop a rule table entry.
+// collShrink proposes smaller inputs, big cuts first (the check takes the first candidate that still
+// fails): keep a prefix, drop a block, drop one op, one worker, drop rules. The number of rounds is
+// capped through a counter carried in the input so that a failing run stays short.
 func collShrink(raw json.RawMessage) []json.RawMessage {
 	var in collInput
 	if json.Unmarshal(raw, &in) != nil {
 		return nil
 	}
+	maxRounds := 3
+	if in.ShrinkMax > 0 {
+		maxRounds = in.ShrinkMax
+	}
+	if in.ShrinkRound >= maxRounds {
+		return nil
+	}
+	in.ShrinkRound++
 	var out []json.RawMessage
+	seen := map[string]bool{}
 	add := func(c collInput) {
 		b, _ := json.Marshal(c)
-		out = append(out, b)
+		if !seen[string(b)] && len(out) < 64 {
+			seen[string(b)] = true
+			out = append(out, b)
+		}
 	}
-	for i := range in.Ops {
+	n := len(in.Ops)
+	dropBlock := func(i, j int) { // remove ops[i:j], keeping the absolute times of the later ops
+		if i < 0 || j > n || i >= j {
+			return
+		}
 		c := in
-		c.Ops = append(append([]collOp{}, in.Ops[:i]...), in.Ops[i+1:]...)
-		if i+1 < len(in.Ops) { // keep absolute times of later ops
-			c.Ops[i].D += in.Ops[i].D
+		c.Ops = append(append([]collOp{}, in.Ops[:i]...), in.Ops[j:]...)
+		if j < n {
+			var d int64
+			for k := i; k < j; k++ {
+				d += in.Ops[k].D
+			}
+			c.Ops[i].D += d
 		}
 		add(c)
+	}
+	if in.Flush {
+		c := in
+		c.Flush = false
+		add(c)
+	}
+	for _, frac := range []int{2, 3, 4, 6} { // halves, thirds, quarters, sixths
+		sz := n / frac
+		if sz < 2 {
+			continue
+		}
+		for i := n - sz; i >= 0; i -= sz {
+			dropBlock(i, i+sz)
+		}
+	}
+	for i := n - 1; i >= 0; i-- {
+		dropBlock(i, i+1)
 	}
 	if in.Workers > 1 {
 		c := in
